@@ -47,6 +47,22 @@ static int push_container (const char *kind, long size, int rhs)
       push_refed_array (a);
       return 1;
     }
+  if (!strcmp (kind, "aarr"))
+    {
+      /* array whose elements are reference counted values: one-element arrays ({ code }) */
+      array_t *a = allocate_empty_array (size);
+      for (long k = 0; k < size; k++)
+        {
+          array_t *e = allocate_empty_array (1);
+          e->item[0].type = T_NUMBER;
+          e->item[0].subtype = 0;
+          e->item[0].u.number = arr_elem (rhs, k);
+          a->item[k].type = T_ARRAY;
+          a->item[k].u.arr = e;
+        }
+      push_refed_array (a);
+      return 1;
+    }
   if (!strcmp (kind, "str"))
     {
       char *s = new_string (size, "c01");
@@ -114,7 +130,9 @@ static void summarize (char *out, size_t n, svalue_t * v)
       len = v->u.arr->size;
       for (long i = 0; i < len; i++)
         {
-          long long e = v->u.arr->item[i].type == T_NUMBER ? (long long) v->u.arr->item[i].u.number : -77;
+          svalue_t *it = &v->u.arr->item[i];
+          long long e = it->type == T_NUMBER ? (long long) it->u.number :
+            (it->type == T_ARRAY && it->u.arr->size == 1 && it->u.arr->item[0].type == T_NUMBER) ? (long long) it->u.arr->item[0].u.number : -77;
           h = fnv_step (h, (unsigned long long) e);
           if (i < 6 && hl < sizeof head - 32)
             hl += snprintf (head + hl, sizeof head - hl, "%s%lld", i ? "," : "", e);
@@ -345,6 +363,8 @@ static int c01_cmd (char *line)
       free (str);
       return 1;
     }
+  if (!strcmp (tok[0], "reent-expect"))
+    return 1;			/* annotation for the model: number of re-entrancy tests of the next program */
   if (!strcmp (tok[0], "expect-abort"))
     return 1;			/* annotation for the model (open known findings): no effect here */
   if (!strcmp (tok[0], "idx") && n == 7)
@@ -372,7 +392,14 @@ static int c01_cmd (char *line)
             if (!push_container (kind, size, 0))
               push_number (0);
             push_number (i);
-            push_number (j);
+            if (op[0] == 't')
+              {
+                /* operations on a temporary: the LPC side indexes (c + j), a fresh value with one reference */
+                if (!push_container (kind, 0, 0))
+                  push_number (0);
+              }
+            else
+              push_number (j);
             if (range_lv)
               {
                 if (!push_container (kind, (long) r, 1))
